@@ -95,7 +95,7 @@ var extMutators = map[string]int{
 	"slices.DeleteFunc": 0, "slices.Delete": 0, "slices.Insert": 0, "slices.Sort": 0, "slices.SortFunc": 0,
 	"slices.SortStableFunc": 0, "slices.Reverse": 0, "slices.Compact": 0, "slices.CompactFunc": 0,
 	"slices.Replace": 0,
-	"sort.Strings": 0, "sort.Ints": 0, "sort.Slice": 0, "sort.SliceStable": 0,
+	"sort.Strings":   0, "sort.Ints": 0, "sort.Slice": 0, "sort.SliceStable": 0,
 	"encoding/binary.(bigEndian).PutUint16": 1, "encoding/binary.(bigEndian).PutUint32": 1, "encoding/binary.(bigEndian).PutUint64": 1,
 	"encoding/binary.(littleEndian).PutUint16": 1, "encoding/binary.(littleEndian).PutUint32": 1, "encoding/binary.(littleEndian).PutUint64": 1,
 }
